@@ -1693,6 +1693,7 @@ package ucfg
 //@ func reifyDoArray :: opts, to, elemT, start, val, arr -> r, err
 //@ props C04 C07
 //@ sweep
+//@ requires rvKind(to) == 17 || rvKind(to) == 23
 //@ requires 0 <= start && start + len(arr) < 9223372036854775807
 //@ modifies *
 //@ ensures [kept_elements_validated] err == nil ==> forall j int :: 0 <= j && j < rvLen(to) && !(start <= j && j < start + len(arr)) ==> recValid(rvIndex(to, j))
@@ -2114,3 +2115,24 @@ package ucfg
 //@ ensures [fresh_result] keys == nil || fresh(base(keys))
 //@ loop 1 invariant keys == nil || fresh(base(keys))
 //@ loop 2 invariant keys == nil || fresh(base(keys))
+
+// ---------------------------------------------------------------- C07: kind preconditions of reflect at the collection helpers
+// The dispatch sites look at the kind behind pointers and interfaces (chaseValue); the helpers have to do the same
+// before they call Len / MapKeys / MapIndex.
+
+//@ func validateMap :: val, opts -> result
+//@ props C07 C04
+//@ sweep
+//@ requires rvKind(chased(val)) == 21
+//@ loop 1 invariant rvKind(val) == 21
+
+//@ func validateArray :: val, opts -> result
+//@ props C07 C04
+//@ sweep
+//@ requires rvKind(chased(val)) == 17 || rvKind(chased(val)) == 23
+//@ loop 1 invariant rvKind(val) == 17 || rvKind(val) == 23
+
+//@ func normalizeMapInto :: cfg, opts, from -> result
+//@ props C07
+//@ sweep
+//@ requires rvKind(from) == 21
